@@ -17,6 +17,7 @@ import (
 	"github.com/spq/pkappa2/internal/index"
 	"github.com/spq/pkappa2/internal/query"
 	"github.com/spq/pkappa2/verifx/c01"
+	"github.com/spq/pkappa2/verifx/csvc"
 	"github.com/spq/pkappa2/verifx/mc"
 	"github.com/spq/pkappa2/verifx/ref"
 )
@@ -361,7 +362,22 @@ func Run(tier string) int {
 	}, func(i int, text string) {
 		rep.Report(mc.Violation{Symptom: "panic", Key: fmt.Sprint(lists[i]), Msg: text})
 	})
+	// part 2: the service's own merges.  In every state of the service exploration (all interleavings
+	// of imports, tagging and merges) delivering a merge result must leave what a fresh view shows
+	// unchanged - the run is replaced where it stood, also when an import arrived meanwhile.
+	svcBudget := 80 * time.Second
+	if tier == "thorough" {
+		svcBudget = 10 * time.Minute
+	}
+	svcStates, svcTrans, svcComplete, svcCaps := csvc.ExploreFor("C07", tier, svcBudget, rep)
 	cv := rep.Coverage
+	cv["service_merge_states"] = svcStates
+	cv["service_merge_transitions"] = svcTrans
+	cv["service_merge_exhaustive"] = svcComplete
+	if !svcComplete {
+		cv["service_merge_caps_hit"] = svcCaps
+	}
+	cv["service_merge_rule"] = "explicit-state search of the service explorer (same scenarios as C06): whenever the last event of a history delivers the result of a merge job, the digest of a fresh view (every stream with metadata, payload, packets; a search) before the delivery equals the digest after it"
 	cv["evaluations"] = evals
 	cv["distinct_nontrivial"] = nontrivial
 	cv["states"] = evals
@@ -376,7 +392,7 @@ func Run(tier string) int {
 	cv["queries"] = len(queries)
 	cv["distinct_outcomes"] = len(outcomes)
 	cv["samples"] = samples
-	cv["exhaustive"] = timedOut == 0
+	cv["exhaustive"] = timedOut == 0 && svcComplete
 	if timedOut != 0 {
 		cv["caps_hit"] = []string{"deadline"}
 	}
